@@ -17,8 +17,11 @@ LEVEL_TEXT = ('static analysis (effect / alias fix-point over the whole call gra
               'and 3 processes, hand every unit of work to the same worker with the same options in the same order (rules of C09-D5 / C03-D5; the'
               ' chunker on all small inputs), that no hidden module-level or class-level state is written (containers written through a local '
               'alias included; embedded positive example), that ensure_path() precedes the promised writes, and -- interpreted over a small file-'
-              'system model -- never overwrites or loses an existing file (k writes leave k files).  Does not decide floating-point run-to-run '
-              'equality (follows from these only modulo library determinism).')
+              'system model -- never overwrites or loses an existing file (k writes leave k files).  D3: pick_pool interpreted for 1, 2, 7, 0, -1'
+              ' processes; the serial / parallel agreement of the read-count and pileup paths is decided by interpretation (C09-D5b / D5c) '
+              "instead of comparing the two branches' call sets. D4 exempts a complete memo (a cache keyed by every parameter its values depend "
+              'on, read by key only) and reports an incomplete one; private helper methods of the table classes are judged through the public '
+              'methods that call them. Does not decide floating-point run-to-run equality (follows from these only modulo library determinism).')
 
 # methods that are in-place by contract (documented mutators) -- everything else on the array classes must leave self alone
 IN_PLACE = {"__init__", "__setitem__", "__delitem__", "add", "sort", "sort_columns", "center_all", "shuffle"}
